@@ -174,7 +174,9 @@ func (core *JApiCore) processEOF() *jerr.JApiError {
 	if je := core.processCurrentDirective(); je != nil {
 		return je
 	}
-	if core.HasUnclosedExplicitContext() {
+	// At the end of an included file the context may still be closed by the
+	// including one.
+	if core.scannersStack.Empty() && core.HasUnclosedExplicitContext() {
 		return core.japiError(jerr.ContextNotClosed, core.scanner.CurrentIndex()-1)
 	}
 	return nil
